@@ -12,11 +12,11 @@ StdoutOK(ev) == /\ ev.rc \in {0, 1, 2}
 ExtractOK(ev) == /\ ev.rc \in {0, 1, 2}
                  /\ ROutcome(0, ev.incomplete, ev.rc, ev.errempty = 0)
 Judge(ev) == CASE ev.e = "stdout" -> StdoutOK(ev) [] ev.e = "extract" -> ExtractOK(ev) [] OTHER -> FALSE
-TInit == /\ chunks = <<>> /\ cap = 1 /\ failAt = 0 /\ profile = "none" /\ unchecked = {} /\ i = 1 /\ buf = 0 /\ accepted = 0 /\ bad = {} /\ exit = 0
+TInit == /\ chunks = <<>> /\ cap = 1 /\ failAt = 0 /\ profile = "none" /\ unchecked = {} /\ bounds = {} /\ i = 1 /\ buf = 0 /\ accepted = 0 /\ bad = {} /\ exit = 0
          /\ diag = FALSE /\ st = "done" /\ l = 1
 TNext == /\ l <= Len(TraceLog) /\ l' = l + 1
          /\ bad' = IF Judge(Ev) THEN bad ELSE bad \cup {l}
-         /\ UNCHANGED <<chunks, cap, failAt, profile, unchecked, i, buf, accepted, exit, diag, st>>
+         /\ UNCHANGED <<chunks, cap, failAt, profile, unchecked, bounds, i, buf, accepted, exit, diag, st>>
 TSpec == TInit /\ [][TNext]_tvars
 Final == (l = Len(TraceLog) + 1) => PrintT(<<"VERDICT", ToJson([bad |-> bad, n |-> Len(TraceLog)])>>)
 Accepted == TLCGet("stats").diameter - 1 = Len(TraceLog)
